@@ -364,7 +364,21 @@ class C07(Prop):
             [['patch', 'lp1', {'gain': 0, 'note': 'n', 'enabled': True, 'persisted': True}],
              ['patch', 'lp1', {'note': '', 'persisted': False}]],
             []])
-        return [c1, c2, c3, c4, c5, c6, c7, c8, c9, c10, c11, c12, c13, c14, c15, c16]
+        # a port with a valid expression / write transform receives a PATCH whose value is refused (400), nothing else
+        # touches that attribute, restart: the running (valid) text is the one that must come back
+        c17 = dict(base, name='refused expression / transform over a valid one, then restart', phases=[
+            [['add', {'id': 'v1', 'type': 'number'}],
+             ['patch', 'v1', {'expression': 'ADD( $lp2 , 1)'}],
+             ['patch', 'v1', {'expression': 'BAD(', 'tag': 't'}],
+             ['add', {'id': 'v2', 'type': 'boolean'}],
+             ['patch', 'v2', {'transform_write': 'NOT( $ )', 'transform_read': 'NOT($)'}],
+             ['patch', 'v2', {'transform_write': 'ADD($v9, 1)'}]],
+            []],
+            canon=[['e', 'ADD( $lp2 , 1)', 'ADD($lp2, 1)'], ['e', 'ADD($lp2, 1)', 'ADD($lp2, 1)'], ['e', 'BAD(', None],
+                   ['w', 'NOT( $ )', 'NOT($)'], ['w', 'NOT($)', 'NOT($)'], ['r', 'NOT($)', 'NOT($)'],
+                   ['w', 'ADD($v9, 1)', None]],
+            xf=[['NOT($)', 'not', 0]])
+        return [c1, c2, c3, c4, c5, c6, c7, c8, c9, c10, c11, c12, c13, c14, c15, c16, c17]
 
     @staticmethod
     def _slave_doc(name, k, attrs):
